@@ -30,6 +30,7 @@ var methods = []string{"GET", "GET", "GET", "HEAD", "POST", "PUT", "DELETE", "OP
 
 func gen(t *rapid.T) Case {
 	cfg := pat.GenCfg(t, false)
+	cfg.Alt = true
 	c := Case{Icpt: cfg.IcptName, Trace: rapid.IntRange(0, 5).Draw(t, "trace") == 0}
 	c.Pool = pat.GenPool(t, cfg, rapid.IntRange(6, 14).Draw(t, "npool"))
 	c.Ops = life.GenOps(t, cfg, c.Pool, rapid.IntRange(1, 25).Draw(t, "nops"),
